@@ -7,7 +7,7 @@ import (
 	rt "github.com/vx-labs/wasp/v4/zzsymxrt"
 )
 
-var symxWillTopics = []string{"w", "w/x"}
+var symxWillTopics = []string{"w", "w/x", "w/../x", "./w"}
 var symxWatchFilters = []string{"w", "w/#", "#", "+/x", "other"}
 
 func symxWillMatches(f, t string) bool {
@@ -15,7 +15,7 @@ func symxWillMatches(f, t string) bool {
 	case "#":
 		return true
 	case "w/#":
-		return t == "w" || t == "w/x"
+		return t == "w" || t == "w/x" || t == "w/../x"
 	case "+/x":
 		return t == "w/x"
 	}
@@ -35,11 +35,12 @@ func symxC13() {
 	p2 := b2.start(symxTransport{})
 	_ = p2
 	f1 := p1.front(&symxAuth{mountPoint: "m", ids: []string{"dying"}})
-	wt := symxWillTopics[rt.Int("will_topic", 0, 1)]
+	wt := symxWillTopics[rt.Int("will_topic", 0, int64(len(symxWillTopics)-1))]
+	wq := byte(rt.Int("will_qos", 0, 2))
 	payload := []byte{rt.Byte("will_payload"), 'z'}
 	retain := rt.Bool("will_retain")
 	c := symxNewConn()
-	rt.Assert(f1.connect(c, symxConnectBytes("cid", 30, "", []byte(wt), payload, 0, retain)) == nil, "C13.connect_accepted")
+	rt.Assert(f1.connect(c, symxConnectBytes("cid", 30, "", []byte(wt), payload, wq, retain)) == nil, "C13.connect_accepted")
 	rt.Quiesce()
 	// watchers: same tenant on node 1 and on node 2, another tenant on node 2
 	fa, fb := symxWatchFilters[rt.Int("filter_local", 0, 4)], symxWatchFilters[rt.Int("filter_remote", 0, 4)]
